@@ -138,20 +138,20 @@ fn main() {
             "at level types other than Level (u8, custom Sev) only absent values and in-range integers have a defined level; every other value is don't-care (totality only)",
         ],
         |s| {
-            s.require("module:>=2-registered-textual-prefixes", 10_000);
-            s.require("module:textual-prefix-that-is-not-an-ancestor", 5_000);
-            s.require("module:>=2-registered-ancestors", 5_000);
-            s.require("overriding-registration", 5_000);
-            s.require("second-build-permuted", 5_000);
-            s.require("governed-by:map-default", 2_000);
-            s.require("governed-by:nothing(accept)", 2_000);
-            s.require("governed-by:registered-path", 10_000);
-            s.require("unleveled-event-with-default", 1_000);
-            s.require("lvl:text-must-accept", 5_000);
-            s.require("lvl:text-must-reject", 2_000);
-            s.require("lvl:integer", 2_000);
-            s.require("outcome:accept", 10_000);
-            s.require("outcome:reject", 10_000);
+            s.require("module:>=2-registered-textual-prefixes", 50_000);
+            s.require("module:textual-prefix-that-is-not-an-ancestor", 50_000);
+            s.require("module:>=2-registered-ancestors", 25_000);
+            s.require("overriding-registration", 80_000);
+            s.require("second-build-permuted", 80_000);
+            s.require("governed-by:map-default", 40_000);
+            s.require("governed-by:nothing(accept)", 40_000);
+            s.require("governed-by:registered-path", 100_000);
+            s.require("unleveled-event-with-default", 10_000);
+            s.require("lvl:text-must-accept", 60_000);
+            s.require("lvl:text-must-reject", 20_000);
+            s.require("lvl:integer", 50_000);
+            s.require("outcome:accept", 100_000);
+            s.require("outcome:reject", 100_000);
 
             s.gen("min-level-filter", s.n(1_500_000, 30_000_000), || filter_case(4, false), check_level_filter_case);
             s.gen("min-level-filter-u8", s.n(300_000, 5_000_000), || filter_case(8, true), |c, cx| {
